@@ -418,13 +418,73 @@ theorem fromV3FormPropO_eq {V : Type} (R : List String) (p : Param2 V) (hnb : p.
     simp only [hit, Option.all_some] at hnb
     simp [clearReq, fromV3FormPropO, fromV3FormProp, kidItems, fromV3SO_eq [] (toV3S s) (noBinary3_toV3S s hnb)]
 
+/-- a converted schema without `x-nullable` (outside additionalProperties sub-schemas) has no `nullable` a
+    FromV3SchemaRef pass could clear: a second pass reads what the first one read -/
+theorem dropNullable_toV3S {V : Type} (s : Sch V) (h : hasXnull s = false) : dropNullable (toV3S s) = toV3S s := by
+  refine (Sch.induct (P := fun s => hasXnull s = false → dropNullable (toV3S s) = toV3S s)
+    (Q := fun ks => hasXnullKids ks = false → dropNullableKids (toV3Kids ks) = toV3Kids ks) ?_ ?_ ?_ ?_).1 s h
+  · intro k n _; simp [toV3S, dropNullable]
+  · intro hd kids ih h
+    simp only [hasXnull, Bool.or_eq_false_iff] at h
+    simp only [toV3S, dropNullable, ih h.2]
+    simp [toV3Hd, h.1]
+  · intro _; simp [toV3Kids, dropNullableKids]
+  · intro sl c rest ihc ihr h
+    simp only [hasXnullKids, Bool.or_eq_false_iff] at h
+    by_cases hs : sl = Slot.addl
+    · simp [toV3Kids, dropNullableKids, hs, ihr h.2]
+    · simp only [hs, if_false] at h
+      simp [toV3Kids, dropNullableKids, hs, ihc h.1, ihr h.2]
+
+/-- the form field fromV3RequestBodies keeps (the one of the last form media type) is the one a single pass
+    reads — outside F-C17-16 (both form media types and `x-nullable` inside the items) -/
+theorem fromV3FormPropT_eq {V : Type} (tw : Bool) (R : List String) (p : Param2 V) (hnb : p.items.all noBinary2 = true)
+    (hx : tw = false ∨ p.items.any hasXnull = false) :
+    fromV3FormPropT tw [] R p.name (clearReq (toV3FormProp p)) = fromV3FormProp R p.name (clearReq (toV3FormProp p)) := by
+  rw [← fromV3FormPropO_eq R p hnb]
+  unfold toV3FormProp
+  cases hit : p.items with
+  | none => simp [clearReq, fromV3FormPropT, fromV3FormPropO, kidItems]
+  | some s =>
+    rcases hx with hx | hx
+    · subst hx; simp [clearReq, fromV3FormPropT, fromV3FormPropO, kidItems]
+    · simp only [hit, Option.any_some] at hx
+      simp [clearReq, fromV3FormPropT, fromV3FormPropO, kidItems, dropNullable_toV3S s hx]
+
+/-- witness (F-C17-16, FormItemsNullableLost): an array form parameter whose items carry `x-nullable: true`, under
+    both form media types — the form field kept by fromV3RequestBodies is the one of the second pass, whose items
+    have lost `x-nullable`; under one form media type they keep it -/
+theorem formItemsTwice_witness :
+    let p : Param2 Nat := { name := "l", loc := "formData", required := false, cons := { ty := some "array" },
+                            items := some (.node { ty := some "string", xnull := true } []), schema := none }
+    let back : Bool → Option Bool := fun tw =>
+      match fromV3FormPropT tw [] [] "l" (clearReq (toV3FormProp p)) with
+      | .val q => q.items.map hasXnull
+      | .ref _ _ => none
+    formItemsTwice ["multipart/form-data", "application/x-www-form-urlencoded"] (.val p) = true ∧
+    formItemsTwice ["multipart/form-data"] (.val p) = false ∧
+    back false = some true ∧ back true = some false := by
+  simp [formItemsTwice, formTwice, isFormMime, hasXnull, hasXnullKids, fromV3FormPropT, clearReq, toV3FormProp, kidItems,
+    toV3S, toV3Kids, toV3Hd, fileToBinary, dropNullable, dropNullableKids, fromV3SO, fromV3Hd, fromV3KidsO, conv]
+
+/-- non-vacuity of `formBody_back`'s hypothesis outside F-C17-16: both form media types, an array form parameter
+    whose items have constraints but no `x-nullable` -/
+example :
+    let p : Param2 Nat := { name := "l", loc := "formData", required := true, cons := { ty := some "array" },
+                            items := some (.node { ty := some "string" } []), schema := none }
+    formTwice ["application/x-www-form-urlencoded", "multipart/form-data"] = true ∧
+    formItemsTwice ["application/x-www-form-urlencoded", "multipart/form-data"] (.val p) = false ∧
+    inputOKFBack ["application/x-www-form-urlencoded", "multipart/form-data"] (.val p) = true := by
+  decide
+
 /-- **the form fields of a converted operation come back as the form parameters** — each with its name,
     requiredness (read back from the object schema), type / format and constraints -/
 theorem formBody_back {V : Type} (env : Env3 V) (cs : List String) (fps : List (Param2 V)) (sh : Bool) (nm : String)
     (hn : nodupKeys (fps.map (fun p => (p.name, toV3FormProp p))) = true)
     (hl : ∀ p ∈ fps, p.loc = "formData") (hi3 : ∀ p ∈ fps, itemsOK3 p.items = true)
     (hib : ∀ p ∈ fps, itemsOKBack p.items = true) (hnb : ∀ p ∈ fps, p.items.all noBinary2 = true)
-    (hf : ∀ p ∈ fps, formFmtOK p = true) (hm : cs.any isFormMime = true) :
+    (hf : ∀ p ∈ fps, formFmtOK p = true) (hm : cs.any isFormMime = true)
+    (hx : ∀ p ∈ fps, formItemsTwice cs (.val p) = false) :
     (fromV3Body [] sh nm (.val (formBody env cs (formMap (fps.map (fun p => (p.name, toV3FormProp p))))))).map inputA2 =
     fps.map (fun p => inputA2 (.val p)) := by
   obtain ⟨hmi, hsc, hnd3⟩ := formBody_shape env cs fps hn
@@ -432,7 +492,7 @@ theorem formBody_back {V : Type} (env : Env3 V) (cs : List String) (fps : List (
     cases cs with
     | nil => simp at hm
     | cons _ _ => rfl
-  simp only [fromV3Body, hmi, hsc, hne, Bool.false_eq_true, if_false, hm, if_true, List.filterMap_map, Function.comp_def]
+  simp only [fromV3Body, fromV3FormFields, hmi, hsc, hne, Bool.false_eq_true, if_false, hm, if_true, List.filterMap_map, Function.comp_def]
   rw [filterMap_some_fun, List.map_map]
   apply List.map_congr_left
   intro p hp
@@ -440,7 +500,11 @@ theorem formBody_back {V : Type} (env : Env3 V) (cs : List String) (fps : List (
   have hc := required_names (fps.map (fun p => (p.name, toV3FormProp p, propRequired p.name (toV3FormProp p)))) hnd3
     p.name (toV3FormProp p) (propRequired p.name (toV3FormProp p)) (List.mem_map.mpr ⟨p, hp, rfl⟩)
   simp only [List.map_map, Function.comp_def] at hc
-  simp only [Function.comp_apply, fromV3FormPropO_eq _ p (hnb p hp)]
+  have hx' : formTwice cs = false ∨ p.items.any hasXnull = false := by
+    have := hx p hp
+    simp only [formItemsTwice, hl p hp, beq_self_eq_true, Bool.true_and, Bool.and_eq_false_iff] at this
+    exact this
+  simp only [Function.comp_apply, fromV3FormPropT_eq _ _ p (hnb p hp) hx']
   exact roundtripForm _ p (hl p hp) (by rw [hc, hreq]) (hib p hp) (hf p hp)
 
 theorem formVals_cons_back {V : Type} (cs : List String) (q : PRef2 V) (rest : List (PRef2 V))
@@ -465,7 +529,8 @@ theorem inputs_split3_back {V : Type} (cbs : List (String × BRef3 V)) (bks : Li
       (ps2.map inputA2 ++
         ((splitP3 (l.map (toV3P { cbodies := cbs, cschemas := [] } cs))).2.1.flatMap (fromV3Body [] false "body")).map inputA2 ++
         (formVals l).map (fun p => inputA2 (.val p))).Perm (l.map inputA2)) ∧
-    (∀ p ∈ formVals l, itemsOKBack p.items = true ∧ p.items.all noBinary2 = true ∧ formFmtOK p = true) := by
+    (∀ p ∈ formVals l, itemsOKBack p.items = true ∧ p.items.all noBinary2 = true ∧ formFmtOK p = true ∧
+      formItemsTwice cs (.val p) = false) := by
   induction l with
   | nil => exact ⟨⟨[], rfl, by simp [splitP3, formVals]⟩, by simp [formVals]⟩
   | cons q rest ih =>
@@ -486,12 +551,13 @@ theorem inputs_split3_back {V : Type} (cbs : List (String × BRef3 V)) (bks : Li
           have i2' := i2
           simp only [List.append_assoc] at i2'
           exact (List.perm_middle).trans (List.Perm.cons _ i2')
-    · have hf : formOKBack q = true := by
+    · have hf2 : formOKBack q = true ∧ formItemsTwice cs q = false := by
         have := h.1
-        simp only [inputOKFBack, Bool.or_eq_true] at this
+        simp only [inputOKFBack, Bool.or_eq_true, Bool.and_eq_true, Bool.not_eq_true'] at this
         rcases this with h1 | h1
         · exact absurd h1 hq
         · exact h1
+      obtain ⟨hf, hft⟩ := hf2
       cases q with
       | ref _ _ => simp [formOKBack] at hf
       | val p =>
@@ -506,7 +572,7 @@ theorem inputs_split3_back {V : Type} (cbs : List (String × BRef3 V)) (bks : Li
         · intro p' hp'
           simp only [formVals, hf.1.1.1, if_true, List.mem_cons] at hp'
           rcases hp' with rfl | hp'
-          · exact ⟨hf.1.1.2, hf.1.2, hf.2⟩
+          · exact ⟨hf.1.1.2, hf.1.2, hf.2, hft⟩
           · exact i4 p' hp'
 
 /-- **every operation with a body parameter or form parameters comes back saying the same** -/
@@ -567,7 +633,7 @@ theorem op_inputs_roundtrip {V : Type} (cbs : List (String × BRef3 V)) (bks : L
       · simp [opA2, meta_roundtrip]
     | cons f fs =>
       have hfi := hform hnd (fun p hp => (s4 p hp).1) (fun p hp => (s4 p hp).2) (fun p hp => (b4 p hp).1)
-        (fun p hp => (b4 p hp).2.1) (fun p hp => (b4 p hp).2.2) hmime
+        (fun p hp => (b4 p hp).2.1) (fun p hp => (b4 p hp).2.2.1) hmime (fun p hp => (b4 p hp).2.2.2)
       rw [hfv] at hfi
       simp only [hfv, List.flatMap_nil, List.map_nil, List.append_nil] at b2 ⊢
       refine ⟨_, rfl, ?_⟩
